@@ -143,6 +143,13 @@ def run_unit(unit, rlimit=None, seed=None, threads=4, timeout=900, spinoff=False
     return res
 
 
+def known_residuals():
+    try:
+        return set(x.get("obligation") for x in json.load(open(os.path.join(VERIF, "known_findings.json")))["findings"] if x.get("status") == "known")
+    except Exception:
+        return set()
+
+
 def classify(res):
     """Set res['status'] and res['failed'] (list of dict(fn, kind, msg, origin)), honouring the canary."""
     if res.get("reason"):
@@ -160,7 +167,12 @@ def classify(res):
             canary_failed = True
             continue
         if any(u in msg for u in UNDECIDED_MSGS):
-            undecided.append({"fn": fn, "msg": msg})
+            if "%s/%s" % (unit, fn) in known_residuals():
+                # the residual obligation of a recorded known finding is expected not to discharge: whether Z3 reaches the
+                # failing assertion or its resource limit first is immaterial
+                failed.append({"fn": fn, "msg": msg, "line": e.get("line"), "origin": e.get("origin") or ""})
+            else:
+                undecided.append({"fn": fn, "msg": msg})
         elif any(v in msg for v in VIOLATION_MSGS):
             # a hand-written proof fn (lemma) contains no text of /repo: its failure is solver/framework instability,
             # never a property violation -> undecided.  Extracted functions and exec theorems over them are violations.
